@@ -76,7 +76,7 @@ def parse_fs_url(fs_url):
         raise ParseError("{!r} is not a fs2 url".format(fs_url))
 
     fs_name, credentials, url1, url2, path = match.groups()
-    if not credentials:
+    if credentials is None:
         username = None  # type: Optional[Text]
         password = None  # type: Optional[Text]
         url = url2
